@@ -156,7 +156,7 @@ def run(ctx):
         rep.evaluations += 1
         return
 
-    n = 120 if tier == "quick" else 6000
+    n = int(os.environ.get("VERIF_GEN_N", "0")) or (120 if tier == "quick" else 3000)
     cases = []
     for k in range(n):
         cases.append(env.case(want_valid=(k % 2 == 0)))
@@ -165,15 +165,16 @@ def run(ctx):
         for _ in range(2 if tier == "quick" else 40):
             cases.append(env.shape_case(k))
     # corpus
-    limit = 10 ** 9
-    for name, prog, refs in G.file_cases(tier, env, limit):
+    impl_only = []
+    for name, prog, refs, big in G.file_cases(tier, env):
         for fl in ([F["DONT_VALIDATE_SIGNATURE"], env.mempool_mode | F["DONT_VALIDATE_SIGNATURE"]] if tier == "quick" or len(prog) > 100000
                    else [F["DONT_VALIDATE_SIGNATURE"], env.mempool_mode | F["DONT_VALIDATE_SIGNATURE"],
                          F["DONT_VALIDATE_SIGNATURE"] | F["COST_CONDITIONS"], F["DONT_VALIDATE_SIGNATURE"] | F["SIMPLE_GENERATOR"],
                          F["DONT_VALIDATE_SIGNATURE"] | F["INTERNED_GENERATOR"] | F["COST_CONDITIONS"]]):
             if name in ("aa-million-messages", "aa-million-message-spends"):
                 fl |= F["COST_CONDITIONS"]
-            cases.append({"program": prog, "refs": refs, "flags": fl, "max_cost": G.BLOCK, "kind": "file", "tags": [("file", name)]})
+            (impl_only if big else cases).append({"program": prog, "refs": refs, "flags": fl, "max_cost": G.BLOCK, "kind": "file",
+                                                   "tags": [("file", name)]})
     # the spend-count limit: 6001 minimal spends (quoted), with and without LIMIT_SPENDS
     if tier != "quick":
         sp = [(i.to_bytes(32, "big"), (b"", (b"", (b"", b"")))) for i in range(6001)]
@@ -205,6 +206,8 @@ def run(ctx):
             continue
         if not rng.chance(1, 3 if tier == "quick" else 2):
             continue
+        if c["kind"].startswith("file") and not any(t[0] == "file" and t[1] in G.QUICK_FILES for t in c["tags"]):
+            continue            # expensive corpus programs are not re-run at a dozen cost limits
         pts = set()
         for d in (d1, d2):
             if d:
@@ -225,7 +228,8 @@ def run(ctx):
             lim.append(d)
     if lim:
         run_both(rep, "gen.limits", lim, env, ctx["have_model"])
-    oracle(rep, cases + lim, listed)
+    oracle(rep, cases + lim + impl_only, listed)
+    rep.streams["gen.oracle07"]["implementation_only_files"] = sorted({t[1] for c in impl_only for t in c["tags"]})
 
     # dependencies: back-reference reader and interning
     progs = list(dict.fromkeys(G.hexo(c["program"]) for c in cases if len(c["program"]) < (20000 if tier == "quick" else 10 ** 7)))
